@@ -9,6 +9,7 @@ CLAIMED = {
  "C05": "Static decision of C05.a-f: CLSignature.Verify tests E against exactly [2^(Le-1), 2^(Le-1)+2^(LePrime-1)] and ProbablyPrime(k>=20) on every accepting path, compares pk.Z with a value depending on A, E, V, S, N, the caller's message block in the key's bases and KeyshareP iff present; the signer draws e from the same interval (RandomPrimeInRange's returned value is 2^start+offset as a symbolic term and primality-tested), v and A have their specified symbolic terms with checked inverses; Randomize has terms A*S^r mod N, V-E*r, copy of E, fresh r of LRA bits; RepresentToBases hashes oversized messages like the other sites. Unforgeability and completeness are not decided.",
  "C06": "Static decision of C06.a-h: ConstructCredential returns a credential only after ProofS.Verify with the builder's own pk/context/nonce2, signature verification over [secret, attributes...], witness verification and binding (NonrevIndex) when a witness is present; assembled signature and credential fields and V = msg.V + vPrime as symbolic terms; blind-attribute sums with bounds/nil checks on every share; ProofS.Verify and Issuer.proveSignature hash the same five roles with the specified terms; ProofU response range, C comparison and contribution dependences; blind index convention on both sides; the e-interval/primality test of the signature check. That honest runs succeed for every configuration is not decided.",
  "C07": "Static decision of the randomness-hygiene discipline C07.a-g: every tabled randomiser is the direct result of its own approved generator call of the specified length, drawn in the constructor (inside the loop for per-element randomisers); the three allowed writes to attrRandomizers; randomiser-holding objects never stored in long-lived state, NewProofCommit does not write through the shared witness; consume-once typestate of the prepared non-revocation commitment (owners, one send site, capacity 1, flows of the received builder); CPRNG counter touched by exactly one atomic.AddUint64 per Read with the block index derived from it and advanced once per iteration; per-object memoisation; distinct generator calls and limits (symbolic terms) in the revocation commitment. The consequence (no extractor succeeds over any pair of proofs and any schedule) and the quality of crypto/rand are not decided.",
+ "C08": "Static decision of nil/bounds safety as a validated-before-use typestate (C08.a/b): every dereference or indexing of a nullable value loaded from ProofD, ProofU, revocation.Proof, rangeproof.Proof or SignedAccumulator in the call tree of ProofList.Verify, ProofD/ProofU.Verify and the exported VerifyWithChallenge/ChallengeContribution methods is preceded on every path from an entry point by a nil/bounds test on the same access path, a successful validator call (validators computed by must-pass analysis, including for-all-elements loops) or an assignment of a trusted value; contributions are computed from sub-proofs only after their structure check; name sets of lookups (C08.c); reachable explicit panics are tabled (C08.d); ProofList.UnmarshalJSON yields only non-nil proofs (C08.e). Access paths are type-rooted (instance-insensitive); panics inside the standard library on exotic values and resource exhaustion are not decided.",
 }
 NA = {
  "C19": "every clause is a numerical result over unbounded integers (inverse, Legendre, CRT, square roots, four squares, modular reduction, primes in an interval); no sound static argument within this technique decides it (DESIGN.md section 4)",
